@@ -437,3 +437,50 @@ for _prop in ("C01", "C02"):
         su.check(S, _prop, pts)
     _lhs.__name__ = "lhs_sampler"
     scenario(_prop, [LHS + "._sample_points", LHS + "._create_lhs_in_bounding_box", LHS + "._check_lhs_inside", LHS + "._append_random_points", RUS + "._sample_points"], configs=CFG)(_lhs)
+
+
+# ----------------------------------------------------------------------------- ExponentialIntervalSampler (C01/C02)
+EXPS = "torchphysics.problem.samplers.grid_samplers.ExponentialIntervalSampler"
+
+for _prop in ("C01", "C02"):
+    def _exp(S, _prop=_prop):
+        """ExponentialIntervalSampler on a real Interval (constant or parameter-dependent bounds), exponents 2 and 1/2
+        (the two branches; the powers are then polynomial): exactly n points per parameter row, each strictly inside
+        [lb(p_k), ub(p_k)] of its own parameter row and carrying it; independent intervals: the same grid for every row."""
+        from .primitives import Harness, IntervalP
+
+        shape_kind, pk, ex = S.cfg.split("/")
+        prim = IntervalP()
+        h = Harness(S, prim, f"{shape_kind}/{pk}")
+        n = S.int("n", 1)
+        if shape_kind == "fn":
+            def P(k, j, row):
+                return z3.And(prim.inset([row[0]], h.vals((k,))), row[1] == zreal(h.ptensor.val.at([(k,), ()])))
+
+            S.loop(PS + "._sample_params_dependent", 0, acc_points_loop(S, "sample_points", [("x", R1), ("t", R1)], n, 2, P, "dependent-loop"))
+        smp = S.new(EXPS, h.dom, n, 2 if ex == "2" else 0.5)
+        pts = S.method(smp, "sample_points", h.params)
+        t = tensor_of(pts)
+        haveK = h.ptensor is not None
+        ncols = 2 if haveK else 1
+        ok = t.rank == 2 and t.shape[1].concrete() == ncols
+        S.ensure("columns-of-domain-and-parameter-space", ok)
+        if not ok:
+            return
+        keys = list(S.getattr(pts, "space").native.keys())
+        S.ensure("space-is-domain-times-parameter-space", keys == (["x", "t"] if haveK else ["x"]))
+        Kz = zint(h.K) if h.K is not None else z3.IntVal(1)
+        grouped = h.K is None or h.grouped(t.shape[0])
+        if _prop == "C02":
+            S.ensure("exactly-n-rows-per-parameter-row", t.shape[0].size_term() == Kz * zint(n))
+            S.ensure("rows-grouped-by-parameter-row", grouped)
+            if grouped and haveK:
+                S.forall("row-carries-its-parameter-row-unchanged", t, lambda q: zreal(t.at([q[0], (1,)])) == zreal(h.ptensor.val.at([h.split(q[0])[0], ()])))
+            S.ensure("len-equals-rows-of-a-parameter-free-call", zint(S.I.pylib.b_len(S.I, smp)) == zint(n))
+            return
+        S.ensure("row-structure", grouped)
+        if not grouped:
+            return
+        S.forall("row-inside-the-interval-of-its-own-parameter-row", t, lambda q: prim.inset([zreal(t.at([q[0], (0,) if ncols != 1 else ()]))], h.vals(h.split(q[0])[0])))
+    _exp.__name__ = "exponential_interval_sampler"
+    scenario(_prop, [EXPS + ".sample_points", EXPS + "._sample_spaced_grid", EXPS + ".__init__", PS + "._sample_params_independent", PS + "._sample_params_dependent"], configs=[f"{a}/{e}" for a in ("const/none", "const/K", "fn/K") for e in ("2", "half")])(_exp)
